@@ -9,6 +9,10 @@ from .ref import commands as R
 from .ref.val import Unstable, Undefined
 
 
+# commands whose result on integer inputs (and integer weights) is an integer computed without rounding
+INTEGER_CLOSED = ("Sum", "Multiply", "AMinusB", "Minimum", "Maximum", "Copy", "WeightedSum")
+
+
 class Outcome(object):
     """What the reference says and what the implementation did for one unit case."""
 
@@ -20,6 +24,7 @@ class Outcome(object):
         self.result = None       # array or exception
         self.arrays = None
         self.sig = None
+        self.params = None
 
 
 def reference(cmd, arrays, params):
@@ -40,6 +45,7 @@ def evaluate(case):
     shape = case.get("shape")
     o.arrays = [A.make_array(s, s.get("shape") or shape) for s in case["arrays"]]
     o.sig = "%s|%s" % (cmd, A.input_class(o.arrays))
+    o.params = case["params"]
     o.ref_kind, ref = reference(cmd, o.arrays, case["params"])
     if o.ref_kind == "cells":
         o.ref = ref
@@ -76,8 +82,12 @@ def judge(o, rec=None, check_values=True, stats=None):
     from fractions import Fraction
 
     single = any(numpy.ma.getdata(a).dtype == numpy.float32 for a in o.arrays)
+    cmd = o.sig.split("|")[0]
+    weights = (o.params or {}).get("Weights", [])
+    exact = (cmd in INTEGER_CLOSED and all(numpy.ma.getdata(a).dtype.kind in "iu" for a in o.arrays)
+             and all(isinstance(w, int) and not isinstance(w, bool) for w in weights))
     return A.compare(o.result, o.ref, o.arrays[0].shape, o.sig, check_values=check_values, stats=stats,
-                     floor=Fraction(1, 10 ** 5) if single else None)
+                     floor=Fraction(1, 10 ** 5) if single else None, exact=exact)
 
 
 def result_equal(a, b, tol=0.0):
